@@ -285,7 +285,12 @@ class Scenario:
             plan = make_program_plan(plan_spec["prog"], devs, futs)
         else:
             plan = builtin_plan(plan_spec, devs)
-        plan = rec.wrap_plan(plan)
+        drop = set(opts.get("drop", ()))
+        plan = rec.wrap_plan(plan, log_cmd=bool(drop))
+        if drop:
+            # a preprocessor that drops messages before the engine sees them (as stub_wrapper does): the plan must be sent None there
+            from bluesky.preprocessors import msg_mutator
+            plan = msg_mutator(plan, lambda msg: None if msg.command in drop else msg)
 
         decisions = list(sc.get("decisions", []))
         out = io.StringIO()
